@@ -6,7 +6,9 @@ make(kind, norb, nelec, rng) -> dict(trial, wave_data, psi, entries)
   psi        the same state written out in second quantisation by vlib.fockref (NumPy)
   entries    which single-walker entry points the kind defines: subset of {"u", "r"}
 Trial parameters are real (the NOCI docstring says so; the code conjugates inconsistently across
-kinds, so complex trial orbitals are outside the admissible set).  Walkers are complex.
+kinds, so complex trial orbitals are outside the admissible set) - except for rhf and uhf, whose routines
+conjugate the trial orbitals everywhere (overlap, Green's function, rot_h1, rot_chol): complex_orbs=True
+draws complex orbitals for those two kinds.  Walkers are complex.
 """
 import itertools
 
@@ -70,7 +72,7 @@ def multislater_wave_data(state, max_excitation):
 
 
 def make(kind, norb, nelec, rng, orthonormal=False, ci_scale=0.3, n_batch=1, eps=None,
-         ms_ref="random", ms_extra_exc=0, ms_ndets=None, noci_ndets=3):
+         ms_ref="random", ms_extra_exc=0, ms_ndets=None, noci_ndets=3, complex_orbs=False):
     import jax.numpy as jnp
 
     from ad_afqmc import wavefunctions as wf
@@ -84,6 +86,8 @@ def make(kind, norb, nelec, rng, orthonormal=False, ci_scale=0.3, n_batch=1, eps
     if kind == "rhf":
         assert na == nb
         mo = rng.normal(size=(norb, na))
+        if complex_orbs:
+            mo = mo + 1j * rng.normal(size=(norb, na))
         if orthonormal:
             mo = np.linalg.qr(mo)[0]
         out["trial"] = wf.rhf(norb, (na, nb), n_batch=n_batch)
@@ -93,6 +97,8 @@ def make(kind, norb, nelec, rng, orthonormal=False, ci_scale=0.3, n_batch=1, eps
         out["orbs"] = (mo, mo)
     elif kind == "uhf":
         ma, mb = rng.normal(size=(norb, na)), rng.normal(size=(norb, nb))
+        if complex_orbs:
+            ma, mb = ma + 1j * rng.normal(size=(norb, na)), mb + 1j * rng.normal(size=(norb, nb))
         if orthonormal:
             ma, mb = np.linalg.qr(ma)[0], np.linalg.qr(mb)[0]
         out["trial"] = wf.uhf(norb, (na, nb), n_batch=n_batch)
